@@ -15,6 +15,7 @@ import (
 	"bytes"
 	"io"
 	"net/http"
+	"strconv"
 	"strings"
 
 	"github.com/saucelabs/forwarder/header"
@@ -299,7 +300,7 @@ func vfH_C02_stream() {
 	}
 }
 
-//vf:assume C02-rules: configured response-header rules (-X-A, X-Rule: on, Empty;) applied to one response with a symbolic 2-byte value in X-A and X-B, a Set-Cookie pair and a 3-byte body; statuses 200 / 404 / 204; the rules must take effect and leave everything else as the origin sent it
+//vf:assume C02-rules: configured response-header rules (-X-A, X-Rule: on, Empty;) applied to one response with a symbolic 2-byte value in X-A and X-B, a Set-Cookie pair and a 3-byte body; statuses 200 / 404 / 204 / 304, GET or HEAD, with the standard or a custom reason phrase; the rules must take effect and leave everything else as the origin sent it
 
 //vf:harness property=C02 nopanic reach=rules-applied steps=8000000
 func vfH_C02_rules() {
@@ -320,25 +321,38 @@ func vfH_C02_rules() {
 		}
 	}
 	body := vfrt.Bytes("body", 3)
-	code := []int{200, 404, 204}[vfrt.Choice("status", 3)]
+	code := []int{200, 404, 204, 304}[vfrt.Choice("status", 4)]
+	customReason := vfrt.Choice("custom-reason-phrase", 2) == 1
+	status := ""
+	if customReason {
+		status = strconv.Itoa(code) + " Unchanged Since Lunch"
+	}
+	method := []string{"GET", "HEAD"}[vfrt.Choice("head-request", 2)]
 	rt.respond = func(req *http.Request, n int) (*http.Response, error) {
-		res := &http.Response{StatusCode: code, ProtoMajor: 1, ProtoMinor: 1, Request: req, ContentLength: 3,
+		res := &http.Response{StatusCode: code, Status: status, ProtoMajor: 1, ProtoMinor: 1, Request: req, ContentLength: 3,
 			Header: http.Header{"X-A": {va}, "X-B": {vb}, "Set-Cookie": {"k=v", "k2=v2"}, "Empty": {"full"}}, Body: io.NopCloser(bytes.NewReader(body))}
-		if code == 204 {
+		if code == 204 || code == 304 {
 			res.ContentLength, res.Body = 0, http.NoBody
+		}
+		if method == "HEAD" {
+			res.Body = http.NoBody
 		}
 		return res, nil
 	}
-	conn := martian.NewVfConn([]byte("GET http://example.com/1 HTTP/1.1\r\nHost: example.com\r\n\r\n"))
+	conn := martian.NewVfConn([]byte(method + " http://example.com/1 HTTP/1.1\r\nHost: example.com\r\n\r\n"))
 	martian.VfServeConn(hp.proxy, conn)
-	res, err := http.ReadResponse(bufio.NewReader(bytes.NewReader(conn.Out.Bytes())), &http.Request{Method: "GET"})
+	res, err := http.ReadResponse(bufio.NewReader(bytes.NewReader(conn.Out.Bytes())), &http.Request{Method: method})
 	vfrt.Assert(err == nil && res.StatusCode == code, "rules/response-parses")
 	if err != nil {
 		return
 	}
 	vfrt.Reach("rules-applied")
+	if customReason {
+		// the origin's own reason phrase reaches the client, also on the bodiless replies the proxy writes itself
+		vfrt.Assert(res.Status == status, "rules/reason-phrase-as-the-origin-sent-it")
+	}
 	got, _ := io.ReadAll(res.Body)
-	if code != 204 {
+	if code != 204 && code != 304 && method != "HEAD" {
 		vfrt.Assert(bytes.Equal(got, body), "rules/body-untouched")
 	}
 	vfrt.Assert(len(res.Header["X-A"]) == 0, "rules/remove-rule-applied")
